@@ -350,6 +350,35 @@ func (cc *ctlConn) request(method, path, ctype string, body []byte) (*httpResp, 
 	}
 }
 
+// requestSplit is request with the body sent separately from the headers; between runs after the headers are on the wire
+// (and had time to arrive) and before the body is sent
+func (cc *ctlConn) requestSplit(method, path, ctype string, body []byte, between func()) (*httpResp, error) {
+	var b bytes.Buffer
+	fmt.Fprintf(&b, "%s %s HTTP/1.1\r\nHost: hc.local\r\nContent-Type: %s\r\nContent-Length: %d\r\n\r\n", method, path, ctype, len(body))
+	if err := cc.send(b.Bytes()); err != nil {
+		cc.dead = true
+		return nil, err
+	}
+	time.Sleep(40 * time.Millisecond)
+	between()
+	if err := cc.send(body); err != nil {
+		cc.dead = true
+		return nil, err
+	}
+	for {
+		r, isEvent, err := cc.readMessage(method)
+		if err != nil {
+			cc.dead = true
+			return nil, err
+		}
+		if isEvent {
+			cc.events = append(cc.events, string(r.body))
+			continue
+		}
+		return r, nil
+	}
+}
+
 func (cc *ctlConn) readMessage(method string) (*httpResp, bool, error) {
 	cc.c.SetReadDeadline(time.Now().Add(3 * time.Second))
 	line, err := cc.br.Peek(5)
